@@ -284,7 +284,7 @@ impl Check for C20 {
         vec!["XYZ input is single-space separated as the tool's header comment states".into(), "tools are built from /repo's workspace by bin/check C20 into /verif/target/tools".into()]
     }
     fn budget(t: Tier) -> usize {
-        t.pick(1500, 20_000)
+        t.pick(1500, 100_000)
     }
     fn preflight() -> Result<(), String> {
         for t in ["e57-from-xyz", "e57-to-xyz", "e57-check-crc", "e57-extract-xml", "e57-unpack"] {
